@@ -757,6 +757,51 @@ func genC01(o *out, r *rng, thorough bool) {
 			o.op("reset")
 		}
 	}
+	// object level: the same polygon document (rectangles, right trapezoids, general quadrilaterals)
+	// parsed under the representation options, queried with Point and SimplePoint objects: the answers
+	// must not depend on the options (a Rect may stand in only for a perfect rectangle)
+	o.op("reset")
+	nq := 60
+	if thorough {
+		nq = 1500
+	}
+	for i := 0; i < nq; i++ {
+		w, h := r.rangeI(2, 8), r.rangeI(2, 8)
+		x3 := 0
+		switch r.intn(3) {
+		case 1:
+			x3 = r.rangeI(1, w-1) // slanted left edge, top edge still horizontal
+		case 2:
+			x3 = -r.rangeI(1, 3)
+		}
+		text := fmt.Sprintf(`{"type":"Polygon","coordinates":[[[0,0],[%d,0],[%d,%d],[%d,%d],[0,0]]]}`, w, w, h, x3, h)
+		if r.coin(0.3) {
+			text = `{"type":"Feature","geometry":` + text + `,"properties":{}}`
+		}
+		var ids []string
+		for _, opts := range []string{defaultOptsS, optsStr(64, 64, 2, false, false, false, true), optsStr(64, 1, 1, false, true, false, true), optsStr(0, 0, 0, false, true, false, false)} {
+			id := o.newID("J")
+			emitParse(o, "oparsewf", id, opts, text)
+			ids = append(ids, id)
+		}
+		for k := 0; k < 6; k++ {
+			px, py := r.rangeI(-4, 2*w+2)*8, r.rangeI(-2, 2*h+2)*8 // half-integer grid, in sixteenths
+			pid := o.newID("O")
+			if k%2 == 0 {
+				o.op("onew %s point %d %d", pid, px, py)
+			} else {
+				o.op("onew %s spoint %d %d", pid, px, py)
+			}
+			g := o.newGroup()
+			for _, id := range ids {
+				o.op("same %d opred %s %s", g, id, pid)
+			}
+		}
+		if i%20 == 19 {
+			o.op("oreset")
+		}
+	}
+	o.op("oreset")
 }
 
 func layoutPts(r *rng, n int, layout int) []ipt {
@@ -874,7 +919,7 @@ func genC04(o *out, r *rng, thorough bool) {
 	// build threshold": the same pair of shapes under several index configurations
 	np := 250
 	if thorough {
-		np = 6000
+		np = 1500 // the model driver builds every index in exact arithmetic: ~0.25 s per pair
 	}
 	for i := 0; i < np; i++ {
 		u := r.pick([]int{16, 32})
@@ -919,7 +964,7 @@ func genC04(o *out, r *rng, thorough bool) {
 		nx = 5000
 	}
 	for i := 0; i < nx; i++ {
-		o.op("xsearch %d %d %d %d", r.next()%(1<<62), r.pick([]int{0, 1, 5, 33, 64, 200, 1500}), r.intn(6), r.intn(3))
+		o.op("xsearch %d %d %d %d", r.next()%(1<<62), r.pick([]int{0, 1, 5, 33, 41, 50, 64, 200, 1500}), r.intn(6), r.intn(3))
 	}
 	// codec round trip, exhaustive over widths at the boundaries
 	o.op("xnumcodec")
